@@ -581,6 +581,7 @@ class Explorer(object):
         self.tier = tier
         self._ref = None
         self._pending = []
+        self._inputs = []
 
     # ---- violations
     def violation(self, kind, summary, case, bits, cfg, **sig):
@@ -588,7 +589,8 @@ class Explorer(object):
         full = dict(sig)
         # per-case details (operands, arguments of the failing primitive) go into the replayable case, where the
         # known-findings predicates read them; they do not form violation groups
-        d["detail"] = {k: full.pop(k) for k in ("operands", "args", "result") if k in full}
+        d["detail"] = {k: full.pop(k) for k in ("operands", "args", "result", "expected_stack", "observed_stack")
+                       if k in full}
         full["family"] = case.family
         full["bits"] = bits
         for k in ("template", "dtype", "nbits"):
@@ -745,7 +747,12 @@ class Explorer(object):
                 except akb.BridgeError:
                     st.outcome("missing input error")
                 return True
-            m.set_inputs(case.inputs)
+            # input positions are reported in the order given here: use the program's declaration order
+            given = dict(case.inputs)
+            ordered = [(n, given[n]) for n in prog.inputs if n in given] + [(n, b) for n, b in case.inputs
+                                                                            if n not in prog.inputs]
+            m.set_inputs(ordered)
+            self._inputs = ordered
             if ref_status.startswith("unspecified"):
                 st.outcome(ref_status)
                 if ref_status.endswith("negative repeat count"):
@@ -777,7 +784,7 @@ class Explorer(object):
 
         def child():
             mm = forth.ForthMachine(case.source, bits, cfg[0], cfg[1], cfg[2], cfg[3])
-            mm.set_inputs(case.inputs)
+            mm.set_inputs(self._inputs)
             err = mm.run()
             return err, mm.snapshot()
         kind, payload = isolated(child)
@@ -826,7 +833,9 @@ class Explorer(object):
             R.describe_body(cb[k]) if k < len(cb) else "(nothing more)", k, len(rb), len(cb),
             (ERRORS[rfin[0]], rfin[1]), (obs, cfin[1]))
         at = refseq[min(k, len(refseq) - 1)][2] if len(refseq[0]) > 2 else None
-        return {"kind": kind, "text": text, "at": at, "expected_error": ERRORS[rfin[0]], "observed_error": obs}
+        return {"kind": kind, "text": text, "at": at, "expected_error": ERRORS[rfin[0]], "observed_error": obs,
+                "stacks": {"expected_stack": R.describe_body(rb[k])["stack"][-8:] if k < len(rb) else None,
+                           "observed_stack": R.describe_body(cb[k])["stack"][-8:] if k < len(cb) else None}}
 
     def stepped(self, case, bits, cfg, m, ref, refseq, prefix_only=False, run_ok=True, run_final=None):
         """begin, then step to the end: the deduplicated sequence of states must be the reference trace."""
@@ -852,7 +861,16 @@ class Explorer(object):
                 break
         st.transitions += nsteps
         st.states += len(by_count)
-        ds = dedupe(states)
+        ds = []
+        silent = []          # steps without a state change before each distinct state
+        quiet = 0
+        for x in states:
+            if ds and ds[-1] == x:
+                quiet += 1
+            else:
+                ds.append(x)
+                silent.append(quiet)
+                quiet = 0
         ok = True
         div_tag = None
         self._div = {}
@@ -869,9 +887,20 @@ class Explorer(object):
             k = 0
             while k < len(ds) and k < len(reftrace) and ds[k] == reftrace[k]:
                 k += 1
-            div_tag = ref.trace[k][1] if k < len(ref.trace) else None
-            if k < len(ref.trace):
-                self._div = {"args": list(ref.trace[k][3]), "result": (R.describe_body(ref.trace[k][0])["stack"] or [None])[-1]}
+            # Which reference event is it?  Those executed since the last agreed state: all but the last leave
+            # the reference state unchanged (e.g. abs of min); the machine spent silent[k] steps without a change
+            # before it changed, so that many of them it executed as no-ops as well.
+            cands = [ev for ev in ref.evlog if ev[4] == k - 1]
+            culprit = None
+            if cands:
+                noops = len(cands) - 1 if k < len(ref.trace) else len(cands)
+                quiet_steps = silent[k] if k < len(silent) else quiet
+                culprit = cands[quiet_steps] if quiet_steps < noops else cands[-1]
+            div_tag = culprit[0] if culprit else (ref.trace[k][1] if k < len(ref.trace) else None)
+            self._div = {"args": list(culprit[1]) if culprit else [],
+                         "expected_stack": R.describe_body(reftrace[k])["stack"][-8:] if k < len(reftrace) else None,
+                         "observed_stack": R.describe_body(ds[k])["stack"][-8:] if k < len(ds) else None}
+            self._culprit = culprit
         if not ok and not run_ok:
             # the run itself already departs from the reference (reported as wrong-result); here only ask whether
             # stepping and running agree with each other
@@ -883,7 +912,7 @@ class Explorer(object):
             k = 0
             while k < len(ds) and k < len(reftrace) and ds[k] == reftrace[k]:
                 k += 1
-            tag = ref.trace[k][1] if k < len(ref.trace) else "end"
+            tag = div_tag or "end"
             incs = ref.trace[k][2] if k < len(ref.trace) else ref.loop_incs
             exits = ref.trace[k][4] if k < len(ref.trace) else ref.exits
             # same end state as run: only an intermediate value is off (a value defect, not a schedule defect)
@@ -943,7 +972,7 @@ class Explorer(object):
             # name the primitive at which the machine first leaves the reference trace (seen by stepping)
             self.flag(diff["kind"], diff["text"], case, bits, cfg, schedule="run", at=div_tag or diff["at"],
                       expected_error=diff["expected_error"], observed_error=diff["observed_error"],
-                      operands=case.meta.get("operands"), **self._div)
+                      operands=case.meta.get("operands"), **(self._div or diff["stacks"]))
         # confluence by instruction count between the run path and the step path
         if step_ok:
             for err, snap, count in cseq:
@@ -1050,7 +1079,7 @@ class Explorer(object):
                     # e.g. call at the recursion limit: the C++ writes out of bounds; never in this process
                     def child():
                         mm = forth.ForthMachine(case.source, bits, cfg[0], cfg[1], cfg[2], cfg[3])
-                        mm.set_inputs(case.inputs)
+                        mm.set_inputs(self._inputs)
                         out = cpp_call(mm)
                         mm.close()
                         return out
@@ -1093,7 +1122,7 @@ class Explorer(object):
                 self.flag("decompile-mismatch", "decompiled() %r recompiles to other bytecodes %s vs %s" % (
                     text, m2.bytecodes, m.bytecodes), case, bits, cfg, schedule="decompile", at=None)
                 return
-            m2.set_inputs(case.inputs)
+            m2.set_inputs(self._inputs)
             seq2 = self.cpp_sequence(m2, "run", len(cseq) + 2)
             st.transitions += len(seq2)
             if [(e, s) for e, s, _ in seq2] != [(e, s) for e, s, _ in cseq]:
@@ -1141,14 +1170,24 @@ def _silence_stdout():
         pass
 
 
-@findings.predicate("c19_fields")
-def _c19_fields(v, params):
-    """All listed fields equal, looked up in the violation and (for pool-reported crashes) in its case."""
+def _vget(v, k):
     case = v.get("case") or {}
-    meta = case.get("meta") or {}
-    for k, want in params.get("fields", {}).items():
-        got = v.get(k, case.get(k, meta.get(k)))
-        if isinstance(want, list):
+    if k in v:
+        return v[k]
+    for d in (case.get("detail") or {}, case, case.get("meta") or {}):
+        if k in d:
+            return d[k]
+    return None
+
+
+def _fields_ok(v, fields):
+    for k, want in fields.items():
+        got = _vget(v, k)
+        if k == "marks_any":
+            have = set((_vget(v, "marks") or "").split(","))
+            if not (have & set(want)):
+                return False
+        elif isinstance(want, list):
             if got not in want:
                 return False
         elif got != want:
@@ -1156,35 +1195,59 @@ def _c19_fields(v, params):
     return True
 
 
+@findings.predicate("c19_fields")
+def _c19_fields(v, params):
+    """All listed fields equal (a list = any of), looked up in the violation, its case detail, case and meta;
+    'marks_any' = at least one of the listed reference-execution marks is present."""
+    return _fields_ok(v, params.get("fields", {}))
+
+
 @findings.predicate("c19_mod_overflow")
 def _c19_mod_overflow(v, params):
-    """The failing program applies mod or /mod to operands a, b for which b + (a rem b) leaves the cell range."""
-    case = v.get("case") or {}
-    bits = case.get("bits")
-    ops = (v.get("operands") or (case.get("meta") or {}).get("operands") or "").split(",")
-    word = v.get("word") or ""
-    if not bits or len(ops) < 2:
+    """mod or /mod applied to a, b for which b + (a rem b) leaves the cell range (the C++ computes exactly that)."""
+    if not _fields_ok(v, {"kind": ["wrong-result", "wrong-intermediate", "step-divergence"], "at": ["mod", "/mod"]}):
         return False
-    vals = []
-    for o in ops:
-        try:
-            vals.append(operand_value(o, bits))
-        except ValueError:
-            return False
+    bits = _vget(v, "bits")
+    args = _vget(v, "args") or []
+    if len(args) < 2 or bits not in (32, 64):
+        return False
+    a, b = args[-2], args[-1]
     hi = (1 << (bits - 1)) - 1
     lo = -hi - 1
+    if b == 0 or (a == lo and b == -1):
+        return False
+    r = abs(a) % abs(b)
+    r = -r if a < 0 else r          # C++ remainder: sign of the dividend
+    return not (lo <= b + r <= hi)
 
-    def overflows(a, b):
-        if b == 0 or (a == lo and b == -1):
-            return False
-        r = abs(a) % abs(b)
-        r = -r if a < 0 else r
-        return not (lo <= b + r <= hi)
-    # the word may be the first or the second of a pair; check every adjacent operand pair the word can see
-    cands = [(vals[-2], vals[-1])]
-    if len(vals) >= 3:
-        cands += [(vals[-3], vals[-2]), (vals[-3], vals[-1])]
-    return ("mod" in word) and any(overflows(a, b) for a, b in cands)
+
+@findings.predicate("c19_abs64")
+def _c19_abs64(v, params):
+    """abs on ForthMachine64 of a value outside the int32 range (the C++ calls the int overload of abs)."""
+    if not _fields_ok(v, {"kind": ["wrong-result", "wrong-intermediate", "step-divergence"], "at": "abs", "bits": 64}):
+        return False
+    args = _vget(v, "args") or []
+    return bool(args) and not (-(1 << 31) <= args[-1] < (1 << 31))
+
+
+def _trunc32(x):
+    x &= 0xffffffff
+    return x - (1 << 32) if x & 0x80000000 else x
+
+
+@findings.predicate("c19_trunc32")
+def _c19_trunc32(v, params):
+    """ForthMachine64: the observed stack is the expected stack with every cell cut to its low 32 bits
+    (sign-extended), and the failing event is one of params['at'] (prefix match)."""
+    if _vget(v, "bits") != 64 or _vget(v, "kind") not in ("wrong-result", "wrong-intermediate", "step-divergence"):
+        return False
+    at = _vget(v, "at") or ""
+    if not any(at == p or at.startswith(p) for p in params.get("at", [])):
+        return False
+    exp, obs = _vget(v, "expected_stack"), _vget(v, "observed_stack")
+    if not exp or not obs or len(exp) != len(obs) or exp == obs:
+        return False
+    return all(o == e or o == _trunc32(e) for e, o in zip(exp, obs))
 
 
 class C19(runner.Check):
